@@ -907,10 +907,16 @@ func (g *G) selectItem() {
 }
 
 func (g *G) postfixBaseForStar() {
-	if g.opt("dotstar.base") {
-		g.path("dotstar")
-	} else {
+	switch g.pick("dotstar.base", 4) {
+	case 0:
 		g.ident()
+	case 1:
+		g.path("dotstar")
+	case 2:
+		// "expression.*": any expression; written without parentheses the operators apply first (a + b.* is (a + b).*)
+		g.expr()
+	case 3:
+		g.postfixBase()
 	}
 }
 
